@@ -37,6 +37,13 @@ NON_EDITABLE = ["[ 1 2 ]\n", '"just a string"\n', "a: [ a ]\n", "", "   \n", "{ 
                 "{ a = 1; } // { b = 2; }\n", "if c then { a = 1; } else { b = 2; }\n"]
 
 
+# classes of failing_op whose refusal is certain (the reason is one of the documented ones and
+# does not depend on what the document contains beyond what failing_op looked at)
+MUST_BE_REFUSED = {"missing-key", "malformed-path", "through-non-set", "attrpath-root-overwrite",
+                   "attrpath-root-overwrite-mixed", "through-inherited", "missing-scope-layer",
+                   "invalid-value", "scope-without-name"}
+
+
 def failing_op(rng, dv):
     """An operation intended to be refused, with its reason label."""
     val = rng.choice(E.VALUE_POOL)
@@ -44,7 +51,14 @@ def failing_op(rng, dv):
     paths = [(p, nd) for p, nd in E.all_paths(tree) if not any(s.startswith("\x00dyn:") for s in p)]
     leaves = [p for p, nd in paths if nd.kind == "leaf"]
     attr_sets = [p for p, nd in paths if nd.kind == "set" and nd.via_attrpath and not nd.explicit and len(p) == 1]
+    mixed_sets = [p for p, nd in paths if nd.kind == "set" and nd.via_attrpath and nd.explicit and len(p) == 1]
+    inherited = [p for p, nd in paths if nd.kind == "leaf" and nd.tokens and nd.tokens[0][0] == "inherit"]
     k = rng.random()
+    if mixed_sets and rng.random() < 0.35:
+        return E.Op("set", E.spell(rng.choice(mixed_sets)), val, "attrpath-root-overwrite-mixed")
+    if k < 0.10 and inherited:
+        p = rng.choice(inherited)
+        return E.Op(rng.choice(["set", "rm"]), E.spell(p + ("deeper",)), val, "through-inherited")
     if k < 0.16:
         return E.Op("rm", "absent" + str(rng.randrange(99)), "", "missing-key")
     if k < 0.30:
@@ -175,6 +189,11 @@ def run_shard(spec):
                         keys.append(k)
                 failures_since_sync += 1
             else:
+                if op.cls in MUST_BE_REFUSED:
+                    # built so that it cannot be applied, for a documented reason
+                    k = dict(base)
+                    k["effect"] = "inapplicable-edit-accepted"
+                    keys.append(k)
                 # re-synchronise after a success (hidden state of successes is C05's subject)
                 try:
                     live = E.LiveDoc(r.out)
